@@ -20,7 +20,7 @@ var c05Table = map[xgen.Op]string{xgen.OpEq: "F", xgen.OpIn: "F", xgen.OpMatches
 var c05Unknowns = []*univ.Node{univ.Str(""), univ.Str("abc"), univ.Bool(true), univ.Bool(false), univ.Int(0), univ.Int(7), univ.IntOf(univ.TInt64, -3), univ.UintOf(univ.TUint8, 200),
 	univ.Float(1.5), univ.FloatOf(univ.TFloat32, 0.5), univ.StrOf(univ.NamedScalarTypes[9], "abc"), univ.IntOf(univ.TInt8, 7), univ.UintOf(univ.TUint64, 1<<63), univ.NilIface(), univ.JSONNum("7")}
 
-var c05Lits = []string{"1", "abc", "", "7", "true", "1.5", "^a", "x", "200", "0"}
+var c05Lits = []string{"1", "abc", "", "7", "true", "1.5", "^a", "x", "200", "0", "(", "a(b", "*", "[a-", "99999999999999999999"}
 
 const c05Absent = "zzAbsentKey"
 
